@@ -130,6 +130,40 @@ func compareFloat(a, b float64) compare {
 	return GREATER
 }
 
+// intBits returns whether an integer-typed value (SS_DT_SIGNED_NUM or
+// SS_DT_UNSIGNED_NUM) is negative, and its 64 bits.
+func intBits(value *sutils.CValueEnclosure) (bool, uint64) {
+	if value.Dtype == sutils.SS_DT_SIGNED_NUM {
+		intVal := value.CVal.(int64)
+		return intVal < 0, uint64(intVal)
+	}
+
+	return false, value.CVal.(uint64)
+}
+
+// compareInts compares two integer-typed values exactly. Converting them to
+// float64 would make different integers above 2^53 compare as equal.
+func compareInts(a, b *sutils.CValueEnclosure) compare {
+	aNegative, aBits := intBits(a)
+	bNegative, bBits := intBits(b)
+
+	if aNegative != bNegative {
+		if aNegative {
+			return LESS
+		}
+		return GREATER
+	}
+
+	// Same sign: two's complement keeps the numeric order of the bits.
+	if aBits < bBits {
+		return LESS
+	} else if aBits > bBits {
+		return GREATER
+	}
+
+	return EQUAL
+}
+
 func compareString(a, b string) compare {
 	if a == b {
 		return EQUAL
@@ -207,6 +241,11 @@ func compareValues(valueA, valueB *sutils.CValueEnclosure, asc bool, op string) 
 	} else {
 		switch rankA {
 		case RANK_NUMERIC:
+			if valueA.IsInt() && valueB.IsInt() {
+				result = compareInts(valueA, valueB)
+				break
+			}
+
 			floatValA, isFloat := valueA.GetFloatValueIfPossible()
 			if !isFloat {
 				return GREATER
